@@ -447,7 +447,7 @@ pub fn run(ctx: &Ctx) {
          Oracle: each merged model equals the master as a tree with multiset children at reorderable parents and with the assigned file set on every element; every file serialized from the merged model equals (same tree equality) the file loaded on its own; all load orders agree; a rejected merge is a violation. Non-trivial: an element shared by >= 2 files and an element exclusive to one file; distinct by master + assignment.",
     );
     ctx.assume("views of one master are consistent by construction; sibling order inside a file is only changed where the specification allows reordering");
-    let cases = ctx.tier.pick(2_000u64, 100_000u64);
+    let cases = ctx.tier.pick(20_000u64, 300_000u64);
     let strat = (0..NVER, proptest::collection::vec(any::<u32>(), 0..300), proptest::collection::vec(any::<u32>(), 0..120), 2usize..5, any::<bool>(), any::<u64>());
     run_prop(ctx, "merge", cases, strat, |(vi, tape, split, k, permute, ps), st| {
         // most cases on recent versions (element kinds of the palette exist there)
